@@ -110,7 +110,9 @@ Definition F_floor_pos (a : float) : float :=  (* a >= 0 *)
   let r := PrimFloat.sub (PrimFloat.add a two52) two52 in
   if PrimFloat.ltb a r then PrimFloat.sub r 1%float else r.
 Definition F_trunc (x : float) : float :=
-  if PrimFloat.ltb x 0%float then PrimFloat.opp (F_floor_pos (PrimFloat.abs x)) else F_floor_pos x.
+  (* float(int(x)): int() has no signed zero, so every -1 < x <= -0.0 gives +0.0 (not -0.0) *)
+  let r := if PrimFloat.ltb x 0%float then PrimFloat.opp (F_floor_pos (PrimFloat.abs x)) else F_floor_pos x in
+  if PrimFloat.eqb r 0%float then 0%float else r.
 Definition F_floor (x : float) : float :=
   if PrimFloat.ltb x 0%float then
     let a := PrimFloat.abs x in let f := F_floor_pos a in
